@@ -37,14 +37,14 @@ type smokeInput struct {
 }
 
 type smokeResult struct {
-	Accepted    bool           `json:"accepted"`
-	LoadError   string         `json:"loadError,omitempty"`
-	Started     bool           `json:"started"`
-	StartFailed bool           `json:"startFailed"`
-	StopHang    bool           `json:"stopHang"`
-	Ops         map[string]int `json:"ops"`
-	Notes       []string       `json:"notes,omitempty"`
-	RecoveredPanic string      `json:"recoveredPanic,omitempty"`
+	Accepted       bool           `json:"accepted"`
+	LoadError      string         `json:"loadError,omitempty"`
+	Started        bool           `json:"started"`
+	StartFailed    bool           `json:"startFailed"`
+	StopHang       bool           `json:"stopHang"`
+	Ops            map[string]int `json:"ops"`
+	Notes          []string       `json:"notes,omitempty"`
+	RecoveredPanic string         `json:"recoveredPanic,omitempty"`
 }
 
 const (
